@@ -1,9 +1,14 @@
-//! misc-check: C32, C34, C36–C39, C45–C47 (policy-text, crypto, fast-channels, id, capi-core).
+//! misc-check: C32, C39, C45–C47 (policy-text, crypto key stores, fast-channels, id, capi-core).
 mod props;
+mod util;
 
 fn main() {
     let args = mcx::parse_args();
     match args.prop.as_str() {
+        "C32" => props::c32::run(&args),
+        "C39" => props::c39::run(&args),
+        "C45" => props::c45::run(&args),
+        "C46" => props::c46::run(&args),
         "C47" => props::c47::run(&args),
         p => mcx::machinery_error(&format!("misc-check does not serve {p}")),
     }
